@@ -354,11 +354,13 @@ pub struct FileRunOpts {
     pub single_result: bool,
     pub running: Arc<AtomicBool>,
     pub interrupt_after_printed: Option<usize>,
+    /// DisplayOptions::print_result (false: the query runs, nothing is printed)
+    pub print_result: bool,
 }
 
 impl Default for FileRunOpts {
     fn default() -> Self {
-        FileRunOpts { format: OutputFormat::Json, single_result: true, running: Arc::new(AtomicBool::new(true)), interrupt_after_printed: None }
+        FileRunOpts { format: OutputFormat::Json, single_result: true, running: Arc::new(AtomicBool::new(true)), interrupt_after_printed: None, print_result: true }
     }
 }
 
@@ -370,7 +372,7 @@ pub fn run_files(tables: &Tables, stmt: &Statement, files: &[&[u8]], opts: FileR
 pub fn run_opened_files(tables: &Tables, stmt: &Statement, files: Vec<File>, opts: FileRunOpts) -> Outcome<FileRun> {
     let r = catch(|| {
         let printer = CapturePrinter { lines: vec![], interrupt: opts.interrupt_after_printed.map(|n| (n, opts.running.clone())) };
-        let display = DisplayOptions { output_format: opts.format.clone(), single_result: opts.single_result, print_result: true };
+        let display = DisplayOptions { output_format: opts.format.clone(), single_result: opts.single_result, print_result: opts.print_result };
         let mut ex = FileExecutor::with_output_printer(opts.running.clone(), files, display, printer, ExecutionEngine::new(tables, stmt)).expect("executor");
         let res = ex.execute().map_err(|e| format!("{}", e));
         FileRun {
@@ -522,6 +524,11 @@ pub enum ChildOut {
 
 /// `files`: Some(content) or None for a directory
 pub fn run_stmt_child(def: &str, stmt: &str, format: &str, files: &[Option<&[u8]>], timeout_s: u64) -> ChildOut {
+    run_stmt_child_env(def, stmt, format, files, timeout_s, &[])
+}
+
+/// the same with extra environment variables for the child (e.g. TZ)
+pub fn run_stmt_child_env(def: &str, stmt: &str, format: &str, files: &[Option<&[u8]>], timeout_s: u64, env: &[(&str, &str)]) -> ChildOut {
     let hex = |b: &[u8]| -> String { b.iter().map(|x| format!("{:02x}", x)).collect() };
     let exe = std::env::current_exe().unwrap();
     let mut args: Vec<String> = vec!["--child".into(), "stmt".into(), hex(def.as_bytes()), hex(stmt.as_bytes()), format.into()];
@@ -531,7 +538,12 @@ pub fn run_stmt_child(def: &str, stmt: &str, format: &str, files: &[Option<&[u8]
             None => "dir".into(),
         });
     }
-    let mut child = match std::process::Command::new(exe).args(&args).stdout(std::process::Stdio::piped()).stderr(std::process::Stdio::piped()).spawn() {
+    let mut cmd = std::process::Command::new(exe);
+    cmd.args(&args).stdout(std::process::Stdio::piped()).stderr(std::process::Stdio::piped());
+    for (k, v) in env {
+        cmd.env(k, v);
+    }
+    let mut child = match cmd.spawn() {
         Ok(c) => c,
         Err(e) => return ChildOut::Other(format!("spawn: {}", e)),
     };
